@@ -217,6 +217,28 @@ PROPS = {
                        "shadows specials, and prefix-mode spacing is characterized exactly; the model is tied to src/decoder.rs and "
                        "Kitoken::decode by differential runs.",
     },
+    "C14": {
+        "level": "proof",
+        "rule": "DESER ops (to_vec(from_slice(bytes)) on the real code vs the model codec, byte for byte) and TODEF ops (from_slice -> Kitoken -> "
+                "to_definition -> to_vec vs the export model) on the serialized forms of the 24 shipped models (converted if foreign; TODEF only "
+                "for vocabularies up to 3000 entries because the list-based export model is quadratic) and 300 (quick) / 5000 (thorough) generated "
+                "definitions covering every model kind and every configuration enum variant (all normalization / split / processing / decoding / "
+                "template variants, regex and character patterns, nested conditionals, character maps), extreme ids and scores (0, u32::MAX-1, "
+                "subnormal, negative zero, infinities), non-ASCII metadata; IMPLEQ ops: field-by-field identity incl. the three fields that == "
+                "ignores, export of a canonical definition returns it, and behaviour equality (encode/decode on generated texts) of tokenizers "
+                "rebuilt from the serialized form and from their own export. Non-trivial: all.",
+        "trusted_base": CORE_TB + ["modelled, not verified: postcard 1.1.3 + serde derive as the generated/hand-written codec (layout regenerated "
+                                   "from the serde derives by the translator and proved equal to the model's layout; wire details tied by DESER "
+                                   "correspondence), hashbrown iteration order as an arbitrary permutation, stable sort as List.mergeSort",
+                                   "regex compilation on deserialization is external: its outcome is an oracle recorded through verif-hooks"],
+        "assumptions": ["Representable: u32 fields fit, strings are valid UTF-8, regex patterns compile, the serialization is shorter than 2^64 bytes",
+                        "Canonical (for export_canonical): distinct BPE byte strings; Unigram strictly sorted by (score,id) without NaN; WordPiece "
+                        "strictly sorted by (id,bytes); specials strictly sorted"],
+        "explanation": "Lean theorems: layout_matches_source (the model's wire layout is literally the layout extracted from the current Rust "
+                       "source), definition_roundtrip (every field, scores bit for bit), fromSlice_toVec, reserialize_same_bytes, "
+                       "fromSlice_checks (size/magic/version), export_canonical and export_order_independent (for every hash iteration order). "
+                       "Tied to src/serialization.rs / definition.rs / Encoder::model by differential runs.",
+    },
     "C18": {
         "level": "proof",
         "rule": "ENC18 ops (whole pipeline, both modes, overflow checks and debug assertions on, catch_unwind per case) on 120 (quick) / 1500 "
@@ -245,6 +267,8 @@ def nontrivial(prop, request, impl):
         return impl != "OK " + parts[2]
     if op in ("WP", "BPE", "UNI", "ENC", "ENC2", "ENC7", "ENC9", "ENC18", "REF9", "RT"):
         return impl not in ("OK -",)
+    if op in ("IMPLEQ", "DESER", "TODEF"):
+        return True
     if op == "IMPLONLY":
         return True
     if op == "NORM":
